@@ -208,6 +208,8 @@ def generate(r, tier, index):
     route = r.choice(['text', 'files', 'include_top', 'include_key', 'multidoc'])
     # history: an earlier build of a similar config (other leaf values, dangling targets present) evaluated with the same context object
     prior = r.random() < 0.25
+    if prior and r.random() < 0.4:
+        prior = 'failing'     # ... an earlier build that failed at its very end (a dangling reference in its last entry)
     if not prior and r.random() < 0.15:
         prior = 'reeval'      # the tree itself is evaluated, then changed in place (top-level leaves replaced), then evaluated again
     # a twentieth of the builds run in a re-executed interpreter started with -O (long chains excepted: they take too long to afford twice)
@@ -420,12 +422,15 @@ def _child(sc):
     def client():
         from awesomeyaml import EvalContext
         ctx = None
-        if sc.get('prior') is True:
+        if sc.get('prior') in (True, 'failing'):
             ctx = EvalContext()
             sched.begin_op('prior_build', budget_for(sc))
             try:
                 pb = Builder()
-                pb.add_source(emit.emit_doc(_to_emit(_prior_struct(sc['struct']), sc['tag'])), raw_yaml=True)
+                pstruct = _prior_struct(sc['struct'])
+                if sc.get('prior') == 'failing':
+                    pstruct['items'].append(['zz_fails_last', {'t': 'ref', 'to': ['nowhere_at_all_zz']}])
+                pb.add_source(emit.emit_doc(_to_emit(pstruct, sc['tag'])), raw_yaml=True)
                 Config(pb.build(), eval_ctx=ctx)
                 out['prior'] = 'ok'
             except sched.SimTimeout:
